@@ -32,6 +32,10 @@ def urls_from_text(string):
                 remainder, url = url.split("](", 1)
                 yield remainder.strip()
 
+                # NOTE: the markdown link might have an empty target
+                if not url:
+                    continue
+
         last_punct = None
 
         stop = len(url) - 1
